@@ -199,6 +199,23 @@ func runC08(c *Ctx) {
 				}
 			}
 		})
+		// or a slice literal searched with a membership function
+		if len(keys) == 0 {
+			forEachInstr(vs, func(in ssa.Instruction) {
+				cl, ok := in.(*ssa.Call)
+				if !ok || cl.Call.StaticCallee() == nil || len(cl.Call.Args) != 2 {
+					return
+				}
+				if isM, _ := c.isMembershipFn(cl.Call.StaticCallee()); !isM {
+					return
+				}
+				if sl, isSl := cl.Call.Args[0].(*ssa.Slice); isSl {
+					if al, isAl := sl.X.(*ssa.Alloc); isAl {
+						keys = constStringsOfAlloc(c, al)
+					}
+				}
+			})
+		}
 		c.Check("C08.X2", "client-whitelist", eqStrs(keys, []string{"alg", "kid"}), vs.Pos(), fmt.Sprintf("client signer-header whitelist %v (parser's is checked to be {alg,kid} by C02.G4)", keys))
 	}
 	c.Min("C08.X2", 1)
